@@ -620,4 +620,71 @@ theorem tSearch_complete {d : TDev} {r : TReq} (wf : TWf d r) (h : tSearch d r =
   · rw [h] at hbad; simp [tIsCrash] at hbad
   · rw [h] at hbad; simp [tOk?] at hbad
 
+/-! ### corollaries -/
+
+/-- A valid configuration excludes the `AssertionError` outcome. -/
+theorem tSearch_ne_assertion_of_valid {d : TDev} {r : TReq} (wf : TWf d r) {c : TCfg} (hv : TValid d r c) :
+    tSearch d r ≠ .assertion :=
+  fun h => tSearch_complete wf h c hv
+
+/-- Fixed finding C20-trion-fpll-max-unchecked, universally: whatever `tSearch` returns, `fPLL = fVCO/O` is inside
+    the declared PLL window (in particular `≤ FPLL_MAX`). -/
+theorem tSearch_pll_in_window {d : TDev} {r : TReq} {c : TCfg} (hden : 0 < r.clkin.den) (hpfd : 0 < d.pfdMax.num)
+    (hfd : ∀ o ∈ r.outs, 0 < o.freq.den) (h : tSearch d r = .ok c) :
+    d.pllMin.le (c.pll r) = true ∧ (c.pll r).le d.pllMax = true := by
+  have := (tSearch_sound hden hpfd hfd h).2.2.2.2.2.2.2.1
+  simpa only [inRange, Bool.and_eq_true] using this
+
+/-- The selected configuration is one of the enumerated candidates (`params_list`). -/
+theorem tSearch_ok_mem {d : TDev} {r : TReq} {c : TCfg} (h : tSearch d r = .ok c) :
+    ∃ fbo cr, r.outs[r.fb]? = some fbo ∧ tCRange d fbo.phase = some cr ∧
+      .ok c ∈ tCands d r (tOcRange d r.outs.length fbo.freq cr) := by
+  obtain ⟨fbo, cr, h1, h2, _, _, _, _, _, _, h3⟩ := tSearch_ok_cand h
+  exact ⟨fbo, cr, h1, h2, h3⟩
+
+/-
+  tSearch_best_open (NOT proved here): with `TWf d r`, if `tSearch d r = .ok c` then for every `c'` with
+  `TValid d r c'`:  `(c'.vco r).le (c.vco r) = true`  and  `(c'.vco r).beq (c.vco r) = true → c'.o ≤ c.o`
+  (highest VCO, then highest O).  Proof plan: fold invariant of `tSelStep` — (a) every processed candidate has
+  `vco ≤ vmax`, (b) every processed candidate with `vco == vmax` is in `l2`, (c) every entry of `l2` has
+  `vco == vmax` and `o ≤ omax`; transitivity of the cross-multiplied order needs the positive denominators
+  `clkin.den * n` of the candidates; a valid `c'` is matched by the enumerated candidate with the same (n, m, o, cfb)
+  exactly as in `tSearch_complete`.
+-/
+
+/-! ### non-vacuity on the declared TRIONPLL table -/
+
+def trionReq50to100 : TReq := ⟨⟨50000000, 1⟩, [⟨⟨100000000, 1⟩, SQ.zero⟩], 0⟩
+/-- witness request of finding C20-trion-fpll-max-unchecked: 16 MHz in, 16 MHz feedback output, single output
+    (O = 1 allowed). -/
+def trionReq16to16 : TReq := ⟨⟨16000000, 1⟩, [⟨⟨16000000, 1⟩, SQ.zero⟩], 0⟩
+
+theorem trionDev_wf50 : TWf trionDev trionReq50to100 :=
+  ⟨by decide, by decide, by decide, by decide, by decide, by decide, by decide, by decide⟩
+theorem trionDev_wf16 : TWf trionDev trionReq16to16 :=
+  ⟨by decide, by decide, by decide, by decide, by decide, by decide, by decide, by decide⟩
+
+/-- On the full table the expected answers are valid (checked by kernel evaluation of the decidable spec) … -/
+theorem trion_valid_50to100 : TValid trionDev trionReq50to100 ⟨1, 2, 4, 9, [9]⟩ := by decide +kernel
+theorem trion_valid_16to16 : TValid trionDev trionReq16to16 ⟨1, 1, 8, 28, [28]⟩ := by decide +kernel
+/-- … the configuration with fPLL = fVCO = 3600 MHz (O = 1, C = 225: what a search without the FPLL_MAX test
+    prefers, highest VCO) is NOT valid … -/
+theorem trion_invalid_16to16_pll3600 : ¬ TValid trionDev trionReq16to16 ⟨1, 1, 1, 225, [225]⟩ := by decide +kernel
+/-- … so by completeness the search cannot end in the AssertionError on these requests. -/
+theorem trion_50to100_ne_assertion : tSearch trionDev trionReq50to100 ≠ .assertion :=
+  tSearch_ne_assertion_of_valid trionDev_wf50 trion_valid_50to100
+theorem trion_16to16_ne_assertion : tSearch trionDev trionReq16to16 ≠ .assertion :=
+  tSearch_ne_assertion_of_valid trionDev_wf16 trion_valid_16to16
+
+/-- Kernel evaluation of the whole search.  The full table (C in 1..256) takes minutes in the kernel, so these two
+    run on the Trion table with the phase-0 C range cut to 1..16 resp. 1..8 (everything else as declared); the
+    compiled model returns `⟨1, 2, 4, 9, [9]⟩` resp. `⟨1, 1, 8, 28, [28]⟩` on the full table. -/
+theorem trion_search_50to100_c16 :
+    tSearch { trionDev with c0Hi := 17 } trionReq50to100 = .ok ⟨1, 2, 4, 9, [9]⟩ := by decide +kernel
+theorem trion_search_16to16_c8 :
+    tSearch { trionDev with c0Hi := 9 } trionReq16to16 = .ok ⟨1, 1, 8, 8, [8]⟩ := by decide +kernel
+/-- fPLL of that answer: 16 MHz * 8 = 128 MHz ≤ 1800 MHz. -/
+theorem trion_search_16to16_c8_pll :
+    ((⟨1, 1, 8, 8, [8]⟩ : TCfg).pll trionReq16to16).le trionDev.pllMax = true := by decide +kernel
+
 end Litex.Clock
